@@ -1,0 +1,53 @@
+//go:build verif
+
+// Contracts for govc (/verif): C24, part 3: round reset (kernel/cosi.go: resetCosiStateForNewRound).
+// Comment-only file.
+
+package kernel
+
+// InOwned / InRetry: membership in a list of hashes
+//@ spec InList32(hs []crypto.Hash, h crypto.Hash) bool = exists j int :: 0 <= j && j < len(hs) && hs[j] == h
+// Collected: every transaction of snapshot s is either kept (owned by the proposal that triggers the transition) or already in the retry set
+//@ spec Collected(keep []crypto.Hash, seen []crypto.Hash, s *common.Snapshot) bool =
+//@     forall i int :: {s.Transactions[i]} 0 <= i && i < len(s.Transactions) ==> InList32(keep, s.Transactions[i]) || InList32(seen, s.Transactions[i])
+// AggsShape: every aggregator has its snapshot, and the snapshot's transaction list existed when the reset started (typing invariants of the map).
+//@ spec AggsShape(chain *Chain) bool = forall k crypto.Hash :: {has(chain.CosiAggregators, k)} has(chain.CosiAggregators, k) ==>
+//@     chain.CosiAggregators[k] != nil && chain.CosiAggregators[k].Snapshot != nil && allocated(chain.CosiAggregators[k].Snapshot.Transactions)
+
+// resetCosiStateForNewRound(owned): for every aggregator, every transaction that is not in `owned` and is still unfinalized with a body is queued
+// again (unless the store returned an error); a transaction in `owned` is NOT queued by this call; both CoSi maps end as new, empty maps.
+//@ func (chain *Chain) resetCosiStateForNewRound
+//@   property C24
+//@   requires CosiChainOK(chain) && AggsShape(chain)
+//@   modifies chain.CosiAggregators, chain.CosiVerifiers, ghost bytes_cachequeue, ghost store_errors
+//@   ensures [requeued] StoreErrors(chain.node.persistStore) == old(StoreErrors(chain.node.persistStore)) ==>
+//@       (forall k crypto.Hash :: {old(has(chain.CosiAggregators, k))} old(has(chain.CosiAggregators, k)) ==>
+//@         (forall i int :: {old(chain.CosiAggregators[k]).Snapshot.Transactions[i]} 0 <= i && i < len(old(chain.CosiAggregators[k]).Snapshot.Transactions) &&
+//@             !InList32(owned, old(chain.CosiAggregators[k]).Snapshot.Transactions[i]) && Eligible(chain.node.persistStore, old(chain.CosiAggregators[k]).Snapshot.Transactions[i]) ==>
+//@             Queued(chain.node.persistStore, old(chain.CosiAggregators[k]).Snapshot.Transactions[i])))
+//@   ensures [owned-not-requeued] forall h crypto.Hash :: {Queued(chain.node.persistStore, h)} Queued(chain.node.persistStore, h) != old(Queued(chain.node.persistStore, h)) ==>
+//@       !InList32(owned, h) && !Finalized(chain.node.persistStore, h)
+//@   ensures [monotone] forall id mathint :: {QueuedId(chain.node.persistStore, id)} QueuedId(chain.node.persistStore, id) != old(QueuedId(chain.node.persistStore, id)) ==> QueuedId(chain.node.persistStore, id) == 1
+//@   ensures [errors-grow] StoreErrors(chain.node.persistStore) >= old(StoreErrors(chain.node.persistStore))
+//@   hint at "chain.CosiAggregators = make(map[crypto.Hash]*CosiAggregator)" [all-collected] forall k crypto.Hash :: {has(chain.CosiAggregators, k)} has(chain.CosiAggregators, k) ==>
+//@       Collected(owned, retry, chain.CosiAggregators[k].Snapshot)
+//@   ensures [maps-empty] chain.CosiAggregators != nil && chain.CosiVerifiers != nil && fresh(chain.CosiAggregators) && fresh(chain.CosiVerifiers) && len(chain.CosiAggregators) == 0 && len(chain.CosiVerifiers) == 0 &&
+//@       (forall k crypto.Hash :: {has(chain.CosiAggregators, k)} !has(chain.CosiAggregators, k)) && (forall k crypto.Hash :: {has(chain.CosiVerifiers, k)} !has(chain.CosiVerifiers, k))
+//@   loop 0 invariant [keepA] forall h crypto.Hash :: {has(keep, h)} has(keep, h) ==> keep[h] && (exists j int :: 0 <= j && j <= rangeindex && owned[j] == h)
+//@   loop 0 invariant [keepB] forall j int :: {owned[j]} 0 <= j && j <= rangeindex ==> has(keep, owned[j])
+//@   loop 1 invariant [keepA] forall h crypto.Hash :: {has(keep, h)} has(keep, h) ==> keep[h] && InList32(owned, h)
+//@   loop 1 invariant [keepB] forall j int :: {owned[j]} 0 <= j && j < len(owned) ==> has(keep, owned[j])
+//@   loop 1 invariant [seenA] forall h crypto.Hash :: {has(seen, h)} has(seen, h) ==> seen[h] && InList32(retry, h)
+//@   loop 1 invariant [retryA] forall j int :: {retry[j]} 0 <= j && j < len(retry) ==> has(seen, retry[j]) && !has(keep, retry[j])
+//@   loop 1 invariant [bytes-kept] forall p *crypto.Key :: {*p} old(allocated(p)) ==> *p == old(*p)
+//@   loop 1 invariant [retry-fresh] isnil(retry) || fresh(retry)
+//@   loop 1 invariant [collected] forall k crypto.Hash :: {visited(k)} visited(k) && has(chain.CosiAggregators, k) ==> Collected(owned, retry, chain.CosiAggregators[k].Snapshot)
+//@   loop 2 invariant [keepA] forall h crypto.Hash :: {has(keep, h)} has(keep, h) ==> keep[h] && InList32(owned, h)
+//@   loop 2 invariant [keepB] forall j int :: {owned[j]} 0 <= j && j < len(owned) ==> has(keep, owned[j])
+//@   loop 2 invariant [seenA] forall h crypto.Hash :: {has(seen, h)} has(seen, h) ==> seen[h] && InList32(retry, h)
+//@   loop 2 invariant [retryA] forall j int :: {retry[j]} 0 <= j && j < len(retry) ==> has(seen, retry[j]) && !has(keep, retry[j])
+//@   loop 2 invariant [bytes-kept] forall p *crypto.Key :: {*p} old(allocated(p)) ==> *p == old(*p)
+//@   loop 2 invariant [retry-fresh] isnil(retry) || fresh(retry)
+//@   loop 2 invariant [collected-others] forall k crypto.Hash :: {visited(k)} visited(k) && has(chain.CosiAggregators, k) && chain.CosiAggregators[k] != agg ==>
+//@       Collected(owned, retry, chain.CosiAggregators[k].Snapshot)
+//@   loop 2 invariant [partial] forall i int :: {agg.Snapshot.Transactions[i]} 0 <= i && i <= rangeindex ==> InList32(owned, agg.Snapshot.Transactions[i]) || InList32(retry, agg.Snapshot.Transactions[i])
